@@ -193,11 +193,12 @@ var Helpers = []*HelperEntity{
 			return r
 		}},
 	{Name: "helper.Count", NIn: 1, NParam: 1,
-		Build: func(p []int, in []<-chan F) []<-chan F { return one(helper.Count(F(p[0]), in[0])) },
+		// the start is p/10: whole for multiples of ten, otherwise a fraction like 0.1 or 1.3
+		Build: func(p []int, in []<-chan F) []<-chan F { return one(helper.Count(F(p[0])/10, in[0])) },
 		Model: func(p []int, in [][]F) [][]F {
 			r := []F{}
 			for i := range in[0] {
-				r = append(r, F(p[0]+i))
+				r = append(r, F(p[0])/10+F(i)) // the i-th count is the start plus i
 			}
 			return [][]F{r}
 		}},
@@ -429,6 +430,9 @@ func helperInputs(lens []int, seed int64) [][]F {
 			} else {
 				in[i][k] = F(rng.Intn(14) - 4) // -4..9: negatives and zero included
 			}
+			if rng.Intn(60) == 0 {
+				in[i][k] = []F{math.NaN(), math.Inf(1), math.Inf(-1)}[rng.Intn(3)] // not-a-number and infinities are values too
+			}
 		}
 	}
 	return in
@@ -473,6 +477,9 @@ func (c16) Gen(rng *rand.Rand, tier string, k int) *Case {
 				lo = h.MinP[i]
 			}
 			c.Param[i] = lo + rng.Intn(n+4)
+			if h.Name == "helper.Shift" && rng.Intn(12) == 0 {
+				c.Param[i] = 250 + rng.Intn(60) // strategies with long warm-ups shift by hundreds
+			}
 			if h.Name == "helper.Duplicate" {
 				c.Param[i] = 1 + rng.Intn(5)
 			}
